@@ -78,7 +78,9 @@ impl Stats {
     /// # Ok::<(),error::CIError>(())
     /// ```
     pub fn ci(&self, confidence: Confidence, quantile: f64) -> CIResult<Interval<usize>> {
-        if quantile <= 0. || 1. <= quantile {
+        #[allow(clippy::neg_cmp_op_on_partial_ord)]
+        if !(0. < quantile && quantile < 1.) {
+            // also rejects NaN
             return Err(error::CIError::InvalidQuantile(quantile));
         }
 
@@ -224,8 +226,6 @@ pub fn ci_sorted_unchecked<T>(
 where
     T: PartialOrd + Clone,
 {
-    assert!(quantile > 0. && quantile < 1.);
-
     ci_indices(confidence, sorted.len(), quantile).and_then(|indices| match indices.into() {
         (Some(lo), Some(hi)) => {
             Interval::new(sorted[lo].clone(), sorted[hi].clone()).map_err(|e| e.into())
